@@ -277,7 +277,10 @@ func (res *CheckResult) checkFnCallArity(fnCall *parser.FnCall) {
 		for index, arg := range validArgs {
 			lastElemIndex := len(sig) - 1
 			if index > lastElemIndex {
-				break
+				// arguments in excess (already reported) don't have an expected type,
+				// but the variables they mention are still used (and must be bound)
+				res.checkExpression(arg, TypeAny)
+				continue
 			}
 
 			type_ := sig[index]
